@@ -83,18 +83,53 @@ func RTSettle(limit time.Duration, calls ...*RTCall) bool {
 	}
 }
 
-// RTWait waits for the calls to return.
+// RTWait waits for the calls to return. The limit is real time, and real time is not a correctness signal: on a machine
+// that is busy with other things a goroutine that only needs the CPU for a moment may not get it for many seconds. So when
+// the limit runs out, the calls are only given up for hung if nothing in the process is running or waiting to run any more
+// (three probes in a row) - a deadlock stays, a starved goroutine does not; otherwise the wait goes on, up to three minutes.
 func RTWait(limit time.Duration, calls ...*RTCall) bool {
+	allDone := func() bool {
+		for _, c := range calls {
+			if !c.Done() {
+				return false
+			}
+		}
+		return true
+	}
 	t := time.NewTimer(limit)
 	defer t.Stop()
 	for _, c := range calls {
 		select {
 		case <-c.done:
+			continue
 		case <-t.C:
-			return false
 		}
+		break
 	}
-	return true
+	if allDone() {
+		return true
+	}
+	self := curGID()
+	hard := time.Now().Add(3 * time.Minute)
+	quiet := 0
+	for time.Now().Before(hard) {
+		if allDone() {
+			return true
+		}
+		busy := false
+		for gid, st := range goroutineStates() {
+			if gid != self && (strings.HasPrefix(st, "running") || strings.HasPrefix(st, "runnable") || strings.HasPrefix(st, "syscall")) {
+				busy = true
+			}
+		}
+		if busy {
+			quiet = 0
+		} else if quiet++; quiet >= 3 {
+			return allDone()
+		}
+		time.Sleep(50 * time.Millisecond)
+	}
+	return allDone()
 }
 
 // GoroutinesMatching lists the stacks of live goroutines (other than the
